@@ -258,6 +258,20 @@ def check_scale(r, c, stream):
     if bad:
         big = max(max(d.values(), default=0) for d in hist.values())
         r.fail("crosstab:table:overflow-scale", f"[{stream}] {c['h']}x{c['w']} raster, largest (zone, category) count {big}: " + bad, key)
+    if st == "ok" and c["agg"] == "percentage":
+        # the model at this scale: the percentage expression translated from the source (Gen.Zonal.pctNumpy / pctDask),
+        # evaluated in the integer width of the breaks, on the counts of the histogram
+        zs = sorted(hist)
+        cats = sorted({v for d in hist.values() for v in d})
+        back = "dask" if stream.startswith("dask") else "numpy"
+        cells = [(k, j, sum(hist[z].values()), hist[z].get(v, 0)) for k, z in enumerate(zs) for j, v in enumerate(cats)]
+        reps = Driver().ask([f"xpct total={t} n={n} backend={back}" for _, _, t, n in cells])
+        for (k, j, t, n), rep in zip(cells, reps):
+            got = out["rows"][k][j] if k < len(out["rows"]) and j < len(out["rows"][k]) else None
+            want = None if rep == "nan" else float(Z.untok_exact(rep))
+            if got is None or not (got != got if want is None else Z.close(got, want, rel=1e-6, abs_=1e-9)):
+                r.disagree("crosstab-" + stream, key, f"zone {zs[k]} cat {cats[j]}: real {got}", f"model (xpct total={t} n={n}) {rep}")
+                break
 
 
 def check_case(r, c, stream, pending):
